@@ -261,7 +261,15 @@ def reindex_after_rewrite_same_process(first_twice: bool) -> bool:
         fs.tick()
         fs.files["x.fa"] = Inode(V2, fs.clock + 5)
         fs.clock = fs.clock + 6
-        return first_ok and load_ok(fs) and {k: v.text for k, v in fs.files.items() if k != "x.fa"} == TRUTH2[2]
+        fs.new_process()
+        fi2 = mkindex(fs)
+        fi2.auto_load()
+        # expectations written out from the FASTA text itself (not taken from another run of the indexer)
+        second_ok = (list(fi2.index.keys()) == ["a", "c"] and fi2.index["a"].length == 11 and fi2.index["c"].length == 4
+                     and [s.name for s in fi2.assembly.scaffolds] == ["a", "c"]
+                     and [(r.start, r.end) for r in fi2.assembly.scaffolds[0].rows if is_frag(r)] == [(1, 4), (7, 11)])
+        cache = {k: v.text for k, v in fs.files.items() if k != "x.fa"}
+        return first_ok and second_ok and cache["x.fa.fai"].split()[:2] == ["a", "11"] and "c" in cache["x.fa.fai"].split()
     return FIN(native(body))
 
 
